@@ -108,6 +108,8 @@ impl Mix {
                 m.wild = m.wild.max(8);
                 m.crypto += 2;
                 m.wide += 1;
+                m.storage += 3;
+                m.call += 2;
             }
             "C30" => {
                 m.call += 4;
